@@ -21,7 +21,7 @@ from lv.props import common
 from type_inference.research import reference_algebra as _ra     # rendering only
 
 ID = 'C05'
-BUDGET = {'quick': 208, 'thorough': 6000}       # generated base programs
+BUDGET = {'quick': 320, 'thorough': 6000}       # generated base programs
 WALL = {'quick': 900, 'thorough': 5400}
 RULE = ('base programs from the typed generator (numbers, strings, lists, closed records '
         'and field access, if-then-else, boolean propositions, aggregation incl. '
@@ -30,16 +30,24 @@ RULE = ('base programs from the typed generator (numbers, strings, lists, closed
         'of it, function over an open record, list of records / record with list / record '
         'in record); each base program in its generated order and under 2 further '
         'permutations of statements, conjuncts (also inside combines / negations) and '
-        'disjuncts; 6 single-point corruptions per program (literal of another type, '
-        'variable swapped with one of another type, arithmetic on Str, ++ / ! on Num, '
-        'added == / < / in / && across types, mixed list literal, record literal with a '
-        'missing / extra / retyped field, Sum/+= of a string, swapped call arguments, one '
-        'fact column or one column of every fact retyped), each again under 3 orders; '
-        'engines: @Engine("sqlite", type_checking: true) for every order, psql / duckdb '
-        '(checking on by default) for one order.  One evaluation = one (program variant, '
-        'order, engine).  Non-trivial = accepted variant with >= 2 predicates and a '
-        'composite, Bool or aggregated column, or rejected variant whose clash is NOT '
-        'visible inside the corrupted conjunct alone (it needs a second conjunct, the '
+        'disjuncts; 6 single-point corruptions per program drawn from 22 kinds (literal of '
+        'another type in a rule / in one fact, variable swapped with one of another type, '
+        'arithmetic on Str, ++ / ! on Num, expression replaced by a literal of another '
+        'type, added == / < / in / && across types, mixed list literal, record literal '
+        'with a missing / extra field, field of a record used at another type, Sum/+= of '
+        'a string, swapped call arguments, bound variable passed to a column of another '
+        'type (incl. [T] to [T\'], record to record\'), one column of every fact retyped), '
+        'each again under 3 orders; the reference checker classifies every variant: '
+        'ground clash => must raise TypeErrorCaughtException (from LogicaProgram(...) or, '
+        'failing that, from FormattedPredicateSql of some predicate); clean under the '
+        'strict reading => must be accepted with exactly the reference signatures; else '
+        'counted as outside the property.  Engines: @Engine("sqlite", type_checking: '
+        'true) for every order, psql / duckdb (checking on by default) for one order; the '
+        'base program is also compiled for every predicate and run on SQLite, every '
+        'returned value must inhabit its column type.  One evaluation = one (program '
+        'variant, order, engine).  Non-trivial = accepted variant with >= 2 predicates '
+        'and a composite, Bool or aggregated column, or rejected variant whose clash is '
+        'NOT visible inside the corrupted conjunct alone (it needs a second conjunct, the '
         'callee\'s definition or another rule); distinct by hash of (text, engine).')
 ASSUMPTIONS = [
     'lv/typeref.py is the oracle: arithmetic Num, ++ on two strings or two lists, '
@@ -55,6 +63,8 @@ ASSUMPTIONS = [
     'multi-body aggregation) are used only to withhold an "accept" expectation',
     'polymorphic injectible predicates (parameter never forced) are compared on their '
     'determined fields only',
+    'a disjunction is one rule per branch (the parser rewrites it so): a variable that '
+    'occurs in two branches only is typed per branch when looking for clashes',
     'values: Num int/float, Str str, Bool 0/1, list / record = JSON text (possibly '
     'encoded once more when nested), null inhabits every type',
     'dialect-library parse memoised per process (filled by the real parser)',
@@ -397,6 +407,7 @@ def evaluate(prog, engine='sqlite', assume=(), run_values=False, compile_sql=Tru
             res['bucket'] = 'other_diagnostic_on_clash:' + type(p).__name__
             return res
         # constructor accepted: a type error may still come at SQL generation
+        blocked = False
         for pred in concrete_preds(prog):
             try:
                 with drive.quiet():
@@ -405,7 +416,15 @@ def evaluate(prog, engine='sqlite', assume=(), run_values=False, compile_sql=Tru
                 res['labels'].append('rejected_by:sql_generation')
                 return res
             except Exception:
+                # another diagnostic / error stopped this predicate before its
+                # structure was typed
+                blocked = True
                 continue
+        if blocked and v['cls'] == 'rec_head_lit':
+            # this class is found by the inference on the compiled structure only
+            res['status'] = 'inconclusive'
+            res['bucket'] = 'clash_not_reached_sql_generation_blocked'
+            return res
         return fail('clash_accepted:%s:%s' % (v['cls'], v['pair']),
                     what + '\nthe compiler raised no type error')
     # ---- expect accept
